@@ -418,3 +418,50 @@ func ruleC19Clone(c *Ctx) {
 	}
 	c.Floor(rule, 24)
 }
+
+// ---------------------------------------------------------------------------
+// C11-RESTGUARD
+// ---------------------------------------------------------------------------
+
+func ruleC11Rest(c *Ctx) {
+	const rule = "C11-RESTGUARD"
+	c.Doc(rule, "controller REST DeleteSnapshot: Controller.DeleteSnapshot is called only under the controller write lock, with all RF replicas RW, a checkpoint set and a snapshot name that is not (part of) the checkpoint; Controller.DeleteSnapshot only asks every replica to prepare (mark) the removal")
+	fn := c.Anchor(rule, "(*controller/rest.Server).DeleteSnapshot")
+	if fn != nil {
+		R := NewRenderer(fn)
+		sites := CallsTo(fn, fCtl+"DeleteSnapshot")
+		lr := fCtl + "ListReplicas($0.c)"
+		c.Guard(rule, fn, sites, "delete snapshot", isUnlockCall,
+			Need{Desc: "controller write lock taken", Instr: isWLockCall},
+			atom("request body parsed", isNilAtom("(*github.com/rancher/go-rancher/api.ApiContext).Read(github.com/rancher/go-rancher/api.GetApiContext($2),&var(input))")),
+			atom("all RF replicas are RW", eqAtom("$0.c.ReplicationFactor", `count{+"RW" -`+lr+`[*].Mode ==0}`)),
+			atom("checkpoint set", neAtom(`""`, "$0.c.Checkpoint")),
+			atom("snapshot is not the checkpoint", "!strings.Contains($0.c.Checkpoint,var(input).Name)"))
+		for _, s := range sites {
+			if callRender(R, s) == fCtl+"DeleteSnapshot($0.c,var(input).Name,"+lr+")" {
+				c.OK(rule, FnName(fn)+" | deletes the requested name on the listed replicas", c.P.InstrPos(s), "", false)
+			} else {
+				c.Bad(rule, FnName(fn)+" | deletes the requested name on the listed replicas", c.P.InstrPos(s), "called as "+callRender(R, s), nil)
+			}
+		}
+		if len(sites) != 1 {
+			c.Bad(rule, FnName(fn)+" | structure", "", "expected one Controller.DeleteSnapshot call", nil)
+		}
+	}
+	if fn := c.Anchor(rule, fCtl+"DeleteSnapshot"); fn != nil {
+		// only prepareRemoveSnapshot per replica; an error stops the loop
+		for _, f := range []string{fCtl + "rmDisk", fCtl + "replaceDisk", fCtl + "processRemoveSnapshot"} {
+			for _, in := range CallsTo(fn, f) {
+				c.Bad(rule, FnName(fn)+" | only marks", c.P.InstrPos(in), "Controller.DeleteSnapshot must only mark the snapshot removed (the cleaner merges and unlinks below the checkpoint)", nil)
+			}
+		}
+		pr := CallsTo(fn, fCtl+"prepareRemoveSnapshot")
+		if len(pr) == 1 {
+			c.Guard(rule, fn, nilErrorReturns(fn), "return nil", nil, atom("every replica visited", "+* -len($2) >=0"))
+			c.OK(rule, FnName(fn)+" | marks on every replica", c.P.InstrPos(pr[0]), "prepareRemoveSnapshot per replica", false)
+		} else {
+			c.Bad(rule, FnName(fn)+" | marks on every replica", "", "expected one prepareRemoveSnapshot call in a loop over the replicas", nil)
+		}
+	}
+	c.Floor(rule, 8)
+}
